@@ -414,6 +414,8 @@ def fam_imports(d):
         "from collections import OrderedDict, defaultdict\nd = defaultdict(int)\nd[1] += 1\nprint(dict(d))\n",
         "import functools, itertools\nprint(list(itertools.chain([1], [2])))\nprint(functools.reduce(lambda a, b: a + b, [1, 2, 3]))\n",
         "from math import floor as fl, ceil\nprint(fl(1.5))\n",
+        "from os.path import basename, dirname, join, split, splitext\nprint(basename('a/b'), dirname('a/b'), join('a', 'b'), splitext('a.b'))\n",
+        "from math import floor, ceil, sqrt, pi, e, tau\nimport os, sys, json, re\nprint(floor(1.5), ceil(1.5), sqrt(4), re.sub('a', 'b', 'a'), json.dumps(1))\n",
         "import json\nimport math\ntry:\n    import tomllib\nexcept ImportError:\n    tomllib = None\nprint(math.floor(1.5), tomllib is not None)\n",
         "import os\nimport os.path\nimport os as o\nprint(o.path.basename('a/b'), os.path.dirname('a/b'))\n",
         "from collections import abc\nimport collections.abc\nprint(isinstance([], collections.abc.Sequence), isinstance({}, abc.Mapping))\n",
